@@ -1,4 +1,4 @@
-import GuppyVerif.Model.Wiring
+import GuppyVerif.Model.DFWiring
 import GuppyVerif.Util.Sexp
 /-! Line-protocol driver for C01 (wiring model).  One request per line:
 
@@ -10,7 +10,7 @@ import GuppyVerif.Util.Sexp
     `(s <ops>)`, `(g ok node port <ops>)`, `(g err noPort|keyError <place id>)` (script stops),
     then `(loc <w|-> ...)` over `places [0] ty`; ops are `(M n (a b)...)` / `(U n (a b) k)`; finally
     `(rs <#reads> <next node> <#ops> <read wires>)` | `(rs err)`: the same script through `runScript`. -/
-open GuppyVerif GuppyVerif.Wiring
+open GuppyVerif GuppyVerif.DFWiring
 
 partial def tyOf : Sexp → Option Ty
   | .list (.atom "L" :: .atom c :: .atom d :: []) => some (.leaf (c == "1") (d == "1"))
